@@ -2,7 +2,7 @@
 import re
 from .runner import Prop
 from . import core
-from gen import trees, text
+from gen import trees, text, misc
 
 COMMON_ASSUME = ['the model corresponds to the code only as far as the generated cases exercise it (differential test, not a proof)',
                  'Rust std, rustc and the crates of Cargo.lock behave as documented']
@@ -157,4 +157,42 @@ class C07(Prop):
         return [(c, 'release') for c in text.gen_total(tier, R)]
 
 
-ALL = {c.pid: c for c in (C01, C02, C03, C04, C05, C06, C07, C08, C10, C11)}
+class C12(Prop):
+    pid = 'C12'
+    k_fields = ['J', 'RV']
+    o_fields = ['roundtrip']
+    trusted_extra = ["serde's derive output and serde_json (feature float_roundtrip) text layer: sampled, not proved"]
+    rule = ('every operator in unary/binary/ternary position over literals of every kind (boundary doubles, NaN, +-inf, nested array literals) and odd '
+            'Unicode names, random trees to depth 6 (10) with random finite bit patterns, chains to depth 100, and the trees compile and optimize produce '
+            'from rendered scripts; correspondence: serde_json::to_value structurally equal to the model\'s ser_expr and the same verdict on from_value; '
+            'oracle: from_value(to_value(e)) == e and from_str(to_string(e)) == e bitwise, reloaded tree executes/validates identically; distinct = distinct JSON values')
+    assumptions = COMMON_ASSUME + ['a literal containing a non-finite number is the recorded known finding (JSON has no such numbers)']
+
+    def gen(self, tier, R):
+        return [(c, 'release') for c in misc.gen_ser(tier, R)]
+
+    def known(self, line, k, o):
+        if misc.has_nonfinite(line) or o.get('nonfinite') == 'true':
+            return 'nonfinite_literal'
+        return None
+
+
+class C19(Prop):
+    pid = 'C19'
+    k_fields = None
+    o_fields = ['refmap', 'respell']
+    rule = ('operation sequences (add/overwrite/remove variable, add/overwrite/remove function, clear variables) over names in several case spellings incl. a '
+            'non-ASCII pair: all of length 1-2, a sample of length 3 (all of length 3 and a sample of length 4 in thorough), random histories to 60 (200) '
+            'steps; after every step the output of the operation and every lookup, existence check, call and listing for 9 spellings, compared with the '
+            'association-list model and with an independent reference map inside the harness; rendered scripts evaluated with respelled identifiers '
+            'and respelled registrations (oracle)')
+    assumptions = COMMON_ASSUME + ['HashMap itself is trusted; str::to_lowercase is modelled for ASCII and Latin-1 letters (the names the generator uses)']
+
+    def gen(self, tier, R):
+        return [(c, 'release') for c in misc.gen_env(tier, R)]
+
+    def nontrivial(self, line, k):
+        return True
+
+
+ALL = {c.pid: c for c in (C12, C19, C01, C02, C03, C04, C05, C06, C07, C08, C10, C11)}
